@@ -38,7 +38,7 @@ def demoEnv : Env where
   req := [0, 1, 2, 3, 4]
   devInfoT := 0
   sleepT := 1
-  handler := fun t _ _ => if t = 2 ∨ t = 3 then .res ⟨7, some 5, 1⟩ else if t = 4 then .res ⟨8, some 8, 1⟩ else .nores
+  handler := fun t i _ => if t = 2 ∨ t = 3 then .res ⟨7, some 5, i⟩ else if t = 4 then .res ⟨8, some 8, 10 + i⟩ else .nores
   props := fun x => if x = 1 then [(1, 1), (3, 3)] else if x = 2 then [(2, 2), (3, 3)] else []
   devModel := fun t _ => if t = 4 then some 4 else none
   infoModel := fun x => if x = 9 then some 6 else none
@@ -61,7 +61,8 @@ theorem set_invariant (e : Env) {l₁ l₂ : List Dgram} (hc : SelfConsistentM e
   snapshot_eq_of_perm e (mH_perm e hc (h.filter _)) hc.2.2
 
 /-- non-vacuity: a two-device, four-datagram scan meets the hypothesis and returns both devices,
-    the first with two merged service types -/
+    the first with two merged service types; the services of the first device yield three different
+    device names (1, 2 and 11: renamed instances) - names are not part of the hypothesis -/
 example : SelfConsistentM demoEnv demoScan ∧ (scanM demoEnv demoScan).map (fun c => (c.addr, c.svcs.length)) = [(1, 2), (2, 1)] := by
   decide +kernel
 
